@@ -141,6 +141,31 @@ def fcbo(model, R, key, S_):
                 l, r = src(X(n.left)), src(X(n.comparators[0]))
                 if {l, r} == {kvar} | cnt_names or ({l, r} - {kvar}) <= cnt_names and kvar in (l, r):
                     return ('NoPositionLeft', isinstance(n.ops[0], (ast.Eq, ast.GtE)) if l == kvar else isinstance(n.ops[0], ast.Eq))
+            if isinstance(n, ast.Compare) and len(n.ops) == 1:
+                # position counter against "count +/- constant": on which of the reachable counter values 0..count does it hold?
+                def side(x):
+                    x = X(x)
+                    if src(x) == kvar:
+                        return 'k'
+                    if src(x) in cnt_names:
+                        return ('n', 0)
+                    if (isinstance(x, ast.BinOp) and isinstance(x.op, (ast.Add, ast.Sub)) and src(x.left) in cnt_names
+                            and isinstance(const(x.right), int) and not isinstance(const(x.right), bool)):
+                        return ('n', const(x.right) if isinstance(x.op, ast.Add) else -const(x.right))
+                    return None
+                a, b = side(n.left), side(n.comparators[0])
+                ops = {ast.Eq: lambda p, q: p == q, ast.NotEq: lambda p, q: p != q, ast.Lt: lambda p, q: p < q, ast.LtE: lambda p, q: p <= q,
+                       ast.Gt: lambda p, q: p > q, ast.GtE: lambda p, q: p >= q}
+                if type(n.ops[0]) in ops and {type(a), type(b)} == {str, tuple}:
+                    N = 6
+                    val = lambda t, k: k if t == 'k' else N + t[1]
+                    holds = {k for k in range(N + 1) if ops[type(n.ops[0])](val(a, k), val(b, k))}
+                    if holds == {N}:
+                        return ('NoPositionLeft', True)
+                    if holds == set(range(N)):
+                        return ('NoPositionLeft', False)
+                    if N - 1 in holds:
+                        return ('PositionsLeft', True)      # true although a candidate position remains
             return None
         try:
             from .. import guards
@@ -152,7 +177,7 @@ def fcbo(model, R, key, S_):
                 if fm(e) and not (e.get('NoPositionLeft') or e.get('EmptyOther')):
                     bad_env = e
             R.check(bad_env is None, rule, func, c.test, f'{tag}: early exit only when nothing can be added',
-                    f'{kvar} == n or not {curT}', src(c.test), extra={'exits_although': bad_env})
+                    f'{kvar} == n or not {curT}', src(c.test), extra={'exits_although': bad_env}, strict=True if bad_env and bad_env.get('PositionsLeft') else None)
         except Unrecognised as e:
             R.unknown(rule, func, c.test, f'{tag}: early exit condition', e.what)
     # table copy
@@ -259,6 +284,31 @@ def fcbo(model, R, key, S_):
             R.bad(rule, func, e.node, what, want_text, str(e))
             return
         except Unrecognised as e:
+            # outside the row abstraction (ordering comparisons, arithmetic): look for a concrete small counterexample of the
+            # formula against the same specification - new members below j are exactly (subject & mask) & ~B
+            expanded = fenv.expand(test, skip=(newS, mask, curS, curT))
+            rename = {newS: 'D', curS: 'B', mask: 'm'}
+            if subject == 'N':
+                rename = None
+
+            def bindings(width, subject=subject):
+                import itertools as _it
+                full = (1 << width) - 1
+                for jj in range(width):
+                    m_ = (1 << jj) - 1
+                    for b_ in range(full + 1):
+                        for d_ in range(full + 1):
+                            if subject == 'D' and b_ & ~d_:
+                                continue        # the derived set contains the current one
+                            yield {newS: d_, curS: b_, mask: m_}
+            cex = None
+            if rename is not None:
+                cex = bitalg.refute_concrete(expanded, bindings, lambda env: (env[newS] & env[mask]) & ~env[curS] == 0)
+            if cex is not None:
+                R.bad(rule, func, test, what, want_text, f'{src(test)}: differs for {newS}={cex[newS]:#06b}, {curS}={cex[curS]:#06b}, {mask}={cex[mask]:#06b} '
+                      f'(test gives {cex["found"]}, no new member below j is {cex["expected"]})',
+                      extra={'consequence': 'an ordering comparison of bit vectors looks only at the highest differing position, not at inclusion'})
+                return
             R.unknown(rule, func, test, what, e.what)
             return
         if 'Bt' in pred.text:
